@@ -183,21 +183,18 @@ def rule_dsread(ctx, R):
                 names[regmap[k]] = 'r%d' % k
             checks = [('%s readReg r%d,r%d %s' % (ver, ra, rb, names[r]), m.get(r), exp[r]) for r in sorted(exp)]
             checks.append(('%s readReg r%d,r%d prefetch address' % (ver, ra, rb), m.prefetch[0] if len(m.prefetch) == 1 else const(0), pf))
+            from rules import bitlin
+            obs_mp = mask | (mask << 32)        # the halves of ma:mx are only ever used under CacheLineAlignMask: the other bits are not observable
             for inst, got, want in checks:
-                if got == want:
+                verdict, how = bitlin.decide(got, want, obs_mp if 'ma:mx' in inst else bitlin.ALL)
+                if verdict == 'eq':
                     R.ok(inst, where)
                     continue
-                differs = None
-                for vals in T.VALUATIONS:
-                    a_, b_ = T.term_eval(got.canon(), vals), T.term_eval(want.canon(), vals)
-                    if a_ != b_:
-                        differs = (vals, a_, b_)
-                        break
-                if differs is None:
+                if verdict == 'unknown':
                     undecided.append('%s is %s, the specification says %s; the two terms agree on every test valuation, equivalence undecided' % (inst, T.term_show(got, None), T.term_show(want, None)))
                     continue
                 nviol += 1
-                R.violation(inst, where, expected=T.term_show(want, None), found='%s after `%s`; e.g. the code gives %#x, the specification %#x' % (T.term_show(got, None), ' ; '.join(tr), differs[1], differs[2]))
+                R.violation(inst, where, expected=T.term_show(want, None), found='%s after `%s`; %s' % (T.term_show(got, None), ' ; '.join(tr), how))
             if m.stores:
                 nviol += 1
                 R.violation('%s stores' % ver, where, expected='no store', found='%d stores' % len(m.stores))
@@ -357,23 +354,17 @@ def rule_dsread_light(ctx, R):
                   ('%s second argument: the frame' % ver, m.get(1), atom(('frame',)))]
         for k in range(8):
             checks.append(('%s r%d untouched' % (ver, k), m.get(regmap[k]), atom(('reg', k))))
+        from rules import bitlin
+        obs_mp = mask | (mask << 32)
         for inst, got, want in checks:
-            if got == want:
+            verdict, how = bitlin.decide(got, want, obs_mp if 'ma:mx' in inst else bitlin.ALL)
+            if verdict == 'eq':
                 R.ok(inst, where)
                 continue
-            differs = None
-            for vals in T.VALUATIONS:
-                try:
-                    a_, b_ = T.term_eval(got.canon(), vals), T.term_eval(want.canon(), vals)
-                except AnalysisBroken:
-                    a_, b_ = 0, 1
-                if a_ != b_:
-                    differs = (a_, b_)
-                    break
-            if differs is None:
+            if verdict == 'unknown' and not ('frame' in repr(got.canon()) + repr(want.canon())):
                 undecided.append('%s is %s, expected %s; undecided' % (inst, T.term_show(got, None), T.term_show(want, None)))
                 continue
             nviol += 1
-            R.violation(inst, where, expected=T.term_show(want, None), found='%s after `%s`' % (T.term_show(got, None), ' ; '.join(tr)))
+            R.violation(inst, where, expected=T.term_show(want, None), found='%s after `%s`; %s' % (T.term_show(got, None), ' ; '.join(tr), how or 'a different value'))
     if undecided and not nviol:
         raise AnalysisBroken('A64-DSREAD-LIGHT: ' + undecided[0])
